@@ -14,6 +14,9 @@ CHECKS = {
  "C03": ("model_checking", "exhaustive enumeration of derived instants (every boundary of the pointwise oracle with minute/sub-minute offsets, range extremes) on the real state/is_*/next_change against the pointwise run-length oracle P",
          "state(t) and next_change(t) are compared with P at every derived instant of every expression of the bounded family; oracle-free relations (next_change > t, equal inside one run) are checked on the same instants.",
          "P uses the real schedule_at. Long-horizon next_change queries are budgeted by a deterministic schedule_at-call counter (hook H1); skipped instants are counted in the evidence.", "DESIGN.md §3 C03"),
+ "C04": ("exploration", "exhaustive enumeration of a stated finite string space (all <=4/5-token strings over a 46-token alphabet, all single-token edits of the expression family, numeric fields at their limits) through the real parser, and of every distinct parsed expression through an API battery in naive/holiday/time-zone/coordinate contexts, under catch_unwind and a deterministic work counter",
+         "The property quantifies over all strings and all representable date-times, so no finite enumeration is complete: the check is exhaustive over the stated spaces only (level: exploration). No panic, and at most one schedule_at per day of the supported range per API call (hook H1).",
+         "catch_unwind catches panics; aborts would surface as machinery failures. Long-horizon unbounded calls are budgeted per expression (counted).", "DESIGN.md §3 C04"),
  "C05": ("model_checking", "exhaustive enumeration of the sentences of the grammar up to a size bound (every AST x every combination of documented syntactic variants) against the AST the sentence denotes; single-field corruptions must be rejected",
          "parse(sentence) must be == the generating AST for every rendering of every AST of the family by an independent printer (13 variant switches, full product on the relevant ones); negative family from the statement's list must be Err.",
          "Trusts the engine's printer/variant table as the definition of 'documented relaxations' (transcribed from grammar.pest comments); strings outside it are not judged.", "DESIGN.md §3 C05"),
@@ -41,6 +44,9 @@ CHECKS = {
  "C16": ("model_checking", "exhaustive enumeration of (expression, bound, derived instant) triples on the real bounded next_change/state against the exact answer from the pointwise oracle P",
          "For 8 bounds from one day to a century, every instant placed at B, B-24h (each +-1 min) before every oracle boundary, at run starts and surrounding midnights: exact-or-none, exact within B-24h, none beyond B, state unchanged.",
          "P uses the real schedule_at; for the one-kind family P covers 1899..2150 and only instants whose horizon lies inside it are used.", "DESIGN.md §3 C16"),
+ "C17": ("model_checking", "bounded exhaustive enumeration of commented rule pairs/triples x days x iteration starts on the real schedule_at/iter_range against the reference model M with provenance (writer per minute, own cover per rule)",
+         "Well-formedness of every reported comment set, emptiness where no rule contributes, exact comments on periods written by exactly one isolated rule, and first-interval comments equal to the schedule period containing the start; what the statement leaves free (merging on overlap/coalescing) is not asserted.",
+         "Provenance comes from M (DESIGN §2.3).", "DESIGN.md §3 C17"),
  "C19": ("model_checking", "complete enumeration of the finite input space of the real ExtendedTime API against an integer-minute reference model",
          "Exhaustive: every (u8,u8), every u16, every valid time x every i16/i8 offset, every ordered pair; nothing is sampled, so within the stated API the property is decided, not estimated.",
          "Trusts chrono::NaiveTime accessors and the engine's 10-line integer model.", "DESIGN.md §3 C19"),
